@@ -752,10 +752,16 @@ func (c *comp) NewHint(f solver.Hint, nbOutputs int, inputs ...frontend.Variable
 			cfg.Sites[call.Site] = st
 		}
 		st.Count++
-		if len(st.Sample) < 5 {
+		// the reservoir: 5 occurrences for the chip's own hints, 16 for any other hint (a generic move may apply to a fraction of the
+		// inputs only, e.g. "the digits of x + r" to the values below 2^254 - r)
+		resv := 5
+		if !KnownHint(name) {
+			resv = 16
+		}
+		if len(st.Sample) < resv {
 			st.Sample = append(st.Sample, [2]int{st.Count - 1, call.Global})
 		} else if cfg.SampleRng != nil {
-			if j := cfg.SampleRng.Intn(st.Count); j < 4 {
+			if j := cfg.SampleRng.Intn(st.Count); j < resv-1 {
 				st.Sample[1+j] = [2]int{st.Count - 1, call.Global}
 			}
 		}
@@ -1046,6 +1052,107 @@ func ForeignAlternatives(c *HintCall) []Alternative {
 					o3[ord], o3[1-ord] = new(big.Int), h3.Mod(h3, R)
 					alts = append(alts, Alternative{Family: fmt.Sprintf("split/all-in-high k=%d", k), Out: o3})
 				}
+				return alts
+			}
+		}
+	}
+	// radix? n >= 3 digits of a uniform width w >= 2 (either order) recomposing to an input: ForeignMoves.tla, shape "digits" with W > 1
+	for xi := len(c.Inputs) - 1; xi >= 0 && n >= 3; xi-- {
+		x := new(big.Int).Mod(c.Inputs[xi], R)
+		for ord := 0; ord < 2; ord++ {
+			d := make([]*big.Int, n) // little-endian view
+			for i := range d {
+				if ord == 0 {
+					d[i] = h[i]
+				} else {
+					d[i] = h[n-1-i]
+				}
+			}
+			high := false
+			for i := 1; i < n; i++ {
+				if d[i].Sign() != 0 {
+					high = true
+				}
+			}
+			if !high {
+				continue // the width cannot be read off a value that fits the lowest digit
+			}
+			for w := uint(2); w <= 128; w++ {
+				lim := new(big.Int).Lsh(one, w)
+				ok := true
+				sum := new(big.Int)
+				for i := n - 1; i >= 0; i-- {
+					if d[i].Cmp(lim) >= 0 {
+						ok = false
+						break
+					}
+					sum.Lsh(sum, w).Add(sum, d[i])
+				}
+				if !ok || new(big.Int).Mod(sum, R).Cmp(x) != 0 {
+					continue
+				}
+				emit := func(fam string, le []*big.Int) {
+					o := make([]*big.Int, n)
+					for i := range o {
+						if ord == 0 {
+							o[i] = le[i]
+						} else {
+							o[i] = le[n-1-i]
+						}
+					}
+					alts = append(alts, Alternative{Family: fmt.Sprintf("%s w=%d", fam, w), Out: o})
+				}
+				cp := func() []*big.Int {
+					o := make([]*big.Int, n)
+					for i := range o {
+						o[i] = new(big.Int).Set(d[i])
+					}
+					return o
+				}
+				top := new(big.Int).Lsh(one, w*uint(n-1))
+				// the digits of x + r, the top digit taking whatever is left
+				y := new(big.Int).Add(x, R)
+				if new(big.Int).Rsh(y, w*uint(n-1)).Cmp(lim) < 0 {
+					b := make([]*big.Int, n)
+					rest := new(big.Int).Set(y)
+					for i := 0; i < n; i++ {
+						if i == n-1 {
+							b[i] = new(big.Int).Set(rest)
+						} else {
+							b[i] = new(big.Int).And(rest, new(big.Int).Sub(lim, one))
+							rest.Rsh(rest, w)
+						}
+					}
+					emit("radix/of-input-plus-r", b)
+				}
+				// a unit borrowed from the top digit: top - 1, next + 2^w (accepted when the digit bound is wider than the radix)
+				if d[n-1].Sign() > 0 {
+					t := cp()
+					t[n-1].Sub(t[n-1], one)
+					t[n-2].Add(t[n-2], lim)
+					emit("radix/borrow-from-top", t)
+				}
+				// the two top digits shifted the other way: top + 1, next - 2^w in the field
+				t2 := cp()
+				t2[n-1].Add(t2[n-1], one)
+				t2[n-2] = new(big.Int).Mod(new(big.Int).Sub(t2[n-2], lim), R)
+				emit("radix/two-top-digits-shifted", t2)
+				// lowest bit flipped, the top digit solved in the field
+				a := cp()
+				delta := big.NewInt(1)
+				if a[0].Bit(0) == 1 {
+					delta.SetInt64(-1)
+				}
+				a[0].Add(a[0], delta)
+				a[n-1] = new(big.Int).Mod(new(big.Int).Sub(a[n-1], new(big.Int).Mul(delta, new(big.Int).ModInverse(new(big.Int).Mod(top, R), R))), R)
+				emit("radix/low-bit-flipped-top-solved", a)
+				// everything in digit 0
+				z := make([]*big.Int, n)
+				for i := range z {
+					z[i] = new(big.Int)
+				}
+				z[0] = new(big.Int).Set(x)
+				emit("radix/all-in-digit-0", z)
 				return alts
 			}
 		}
